@@ -241,7 +241,7 @@ def m_project(case):
             params = [[None if n is None else [S(n)], m_qty_q(t)] for n, _, t in fn["params"]]
             fns.append([params, [m_stmt(s) for s in fn["body"]]])
         files.append(fns)
-    return [files, has_command(case)]
+    return [files, has_command(case), [[S(k), S(v)] for k, v in sorted(case.get("mappings", {}).items())]]
 
 
 def case_sexp(case, events_ts, index_ts):
@@ -581,7 +581,10 @@ def structured_case(rng, dirty):
         files[0]["fns"].append(command_fn(0))
     for f in files:
         f["prelude"] = PRELUDE
-    return {"files": files, "zod": rng.random() < 0.3}
+    c = {"files": files, "zod": rng.random() < 0.3}
+    if rng.random() < 0.25:
+        c["mappings"] = rng.choice([{"User": "string"}, {"Progress": "number", "Tick": "boolean"}, {"Settings": "Prefs"}, {"Heartbeat": "string", "User": "number"}])
+    return c
 
 
 def single(body, zod=False, params=None, cmd=True, extra=None):
@@ -754,6 +757,42 @@ def enum_compositions(rng, n_triples):
         i += 1
         ks = [rng.choice(DOC_WRAPPERS if rng.random() < 0.75 else UNDOC_WRAPPERS) for _ in range(3)]
         cases.append(compose_case(ks, i, recv=rng.choice(DOC_RECEIVERS), to=rng.random() < 0.3))
+    return cases
+
+
+def enum_mappings():
+    """payload forms x configuration: type_mappings with primitive (and one non-primitive) targets; mapped names at
+    top level (typed parameter / let, struct expression, alias, &x, x.clone()) and nested in Vec / Option / map payload
+    types; unmapped controls; keys that are Rust primitives (ignored by the tool); both modes"""
+    cases = []
+    mapsets = [{"Uuid": "string"}, {"Uuid": "string", "Stamp": "number", "Flag": "boolean"}, {"Money": "Decimal", "Uuid": "string"},
+               {"String": "number", "i32": "string", "Uuid": "number"}, {"Other": "string"}, {}]
+    tys = [TY("Uuid"), ["ref", TY("Uuid")], TY("Uuid", segs=["uuid"]), TY("Stamp"), TY("Flag"), TY("Money"), TY("User"), TY("String"), TY("i32"),
+           TY("Vec", TY("Uuid")), TY("Option", TY("Stamp")), TY("HashMap", TY("String"), TY("Uuid")), ["tuple", [TY("Uuid"), TY("i32")]]]
+    i = 0
+    for ms in mapsets:
+        for t in tys:
+            for how in ("param", "let", "alias", "struct", "clone"):
+                i += 1
+                params = [["app", None, APP_T]]
+                body = []
+                if how == "param":
+                    params.append(["x", None, t]); p = V("x")
+                elif how == "let":
+                    body.append(["let", ["typed", "x", t], ["call", V("make"), []]]); p = ["ref", V("x")]
+                elif how == "alias":
+                    params.append(["x", None, t]); body.append(["let", ["ident", "y", False], V("x")]); p = V("y")
+                elif how == "clone":
+                    params.append(["x", None, t]); p = M(V("x"), "clone")
+                else:
+                    if t[0] != "path" or t[4]:
+                        continue
+                    p = ["struct", list(t[1]) + [t[2]]]
+                body.append(["expr", M(EMIT(V("app"), "mapped-evt", p), "ok")])
+                body.append(["expr", M(EMIT_TO(V("app"), "literal-evt", ["lit", "int"]), "ok")])
+                c = single(body, zod=(i % 2 == 0), params=params)
+                c["mappings"] = dict(ms)
+                cases.append(c)
     return cases
 
 
